@@ -1,4 +1,4 @@
-\* code as it is (FixTag off): nothing is pushed for an unchanged image, the new tag does not exist
+\* before the repair (FixTag off): nothing is pushed for an unchanged image, the new tag does not exist
 CONSTANTS
  Images <- ImagesData
  Options <- OptsAsisTag
@@ -10,6 +10,7 @@ CONSTANTS
  FixAdded = TRUE
  FixTag = FALSE
  FixClose = TRUE
+ FixDesc = TRUE
  Fine = FALSE
 SPECIFICATION Spec
 INVARIANTS PostResolves
